@@ -175,6 +175,14 @@ def all_msgs(scn):
     return out
 
 
+CHUNKS = "hrtf"      # header, record line, traceback, footer: the four pieces of one report
+
+
+def is_tame(mode):
+    """stderr works, is absent, or fails with OSError (as a whole, or from some chunk of a report on)"""
+    return mode in ("ok", "absent", "OSError") or mode.startswith("OSError@")
+
+
 def group_modes(scn):
     """stderr mode of every group"""
     seq = scn.get("stderr_seq")
@@ -198,8 +206,9 @@ def inner_closure(scn, i):
 def line_of(scn):
     def lst(items):
         return ";".join(items) if items else "-"
-    H = lst(["%d,%d,%d,%d,%s,%d,%d,%d" % (h["id"], h["level"], h["catch"], h["enqueue"], h["kind"], h["filter"],
-                                         h["dynamic"], h["serialize"]) for h in scn["handlers"]])
+    H = lst(["%d,%d,%d,%d,%s,%d,%d,%d,%d" % (h["id"], h["level"], h["catch"], h["enqueue"], h["kind"], h["filter"],
+                                            h["dynamic"], h["serialize"], h.get("stoppable", 1))
+             for h in scn["handlers"]])
     F = lst(["%d,%d,%s,%s" % tuple(f) for f in scn["faults"]])
     A = lst(["%d,%d" % tuple(a) for a in scn["rejects"]])
     R = lst(["%d,%d,%s" % tuple(r) for r in scn["reenter"]])
@@ -207,8 +216,8 @@ def line_of(scn):
     Sf = lst([str(i) for i in scn["strfails"]])
     N = lst([str(i) for i in all_msgs(scn)]) if scn["noloop"] else "-"
     L = lst(["%s,%d" % (k, v) for k, v in sorted(scn["levels"].items(), key=lambda kv: int(kv[0]))])
-    O = lst(["+".join(("l%d" % op[1]) if op[0] == "l" else "c" if op[0] == "c" else "r%d.%d" % (op[1], op[2])
-                      for op in g) for g in scn["groups"]])
+    O = lst(["+".join(("l%d" % op[1]) if op[0] == "l" else "c" if op[0] == "c" else ("R%d" % op[1]) if op[0] == "R"
+                      else "r%d.%d" % (op[1], op[2]) for op in g) for g in scn["groups"]])
     E = scn["stderr"]
     if scn.get("stderr_seq"):
         for g, m in zip(scn["groups"], group_modes(scn)):
@@ -217,6 +226,8 @@ def line_of(scn):
                     E += "".join("/%d:%s" % (x, m) for x in inner_closure(scn, op[1]))
                 elif op[0] == "r":
                     E += "/%d:%s" % (op[2], m)
+                elif op[0] == "R":
+                    E += "/%d:%s" % (op[1], m)
     return "run H=%s F=%s A=%s R=%s X=%s S=%s N=%s L=%s E=%s D=3 O=%s" % (H, F, A, R, X, Sf, N, L, E, O)
 
 
@@ -229,6 +240,20 @@ def show_obs(results, events, reg, minlevel, sinks):
 def ev_report(h, msg, kind, ph, src):
     m = "p" if ph else ("n" if msg is None else str(msg))
     return "R%d.%s.%s.%d.%s" % (h, m, kind, 1 if ph else 0, src)
+
+
+def ev_partial(h, msg, ph, chunks, src):
+    """a report stderr accepted only in part; the record is identifiable only if its line was written"""
+    m = ("p" if ph else ("n" if msg is None else str(msg))) if "r" in chunks else "-"
+    return "P%d.%s.%s.%s" % (h, m, chunks, src)
+
+
+def stop_runs_user_code(c):
+    """the sink's stop() runs user code: a stream object with a stop() method, a logging.Handler (close), a file sink
+    (retention / compression callables) – a callable or coroutine sink has nothing to stop"""
+    if c["kind"] in ("stream", "streamFlush"):
+        return bool(c.get("stoppable", 1))
+    return c["kind"] in ("standard", "file")
 
 
 # ----------------------------------------------------------------------------- executable spec (direct oracle)
@@ -277,9 +302,9 @@ def spec_run(scn):
     outside the property's hypotheses)"""
     t = S(scn)
     modes = group_modes(scn)
-    if any(m not in ("ok", "absent", "OSError") for m in modes):
+    if any(not is_tame(m) for m in modes):
         return None
-    state = {"reporting": True}
+    state = {"mode": "ok"}
     reg = [h["id"] for h in scn["handlers"]]
     sinks = {h: [] for h in reg}
     pending = {h: [] for h in reg}
@@ -287,9 +312,16 @@ def spec_run(scn):
     obs = []
 
     def report(events, h, msg, kind, src):
-        if state["reporting"]:        # on the stderr of THIS moment; absent / OSError: silent, never propagated
-            ph = msg is not None and msg in t["strfails"]
+        # on the stderr of THIS moment; absent / OSError: silent, never propagated; a stderr that breaks in the middle
+        # of the report keeps what it had accepted – and still nothing is propagated
+        ph = msg is not None and msg in t["strfails"]
+        mode = state["mode"]
+        if mode == "ok":
             events.append(ev_report(h, msg, kind, ph, src))
+        elif "@" in mode:
+            chunks = CHUNKS[:CHUNKS.index(mode.split("@")[1])]
+            if chunks:
+                events.append(ev_partial(h, msg, ph, chunks, src))
 
     def drain(events, h):
         c = t["handlers"][h]
@@ -347,7 +379,7 @@ def spec_run(scn):
 
     for gi, g in enumerate(scn["groups"]):
         results, events = [], []
-        state["reporting"] = modes[gi] == "ok"
+        state["mode"] = modes[gi]
         for op in g:
             if op[0] == "l":
                 err = spec_log(events, op[1], set())
@@ -368,6 +400,20 @@ def spec_run(scn):
                             sinks[h].append(i)
                     tasks[h] = []
                 results.append("ok")
+            elif op[0] == "R":
+                # remove() of every handler, in registration order: each one is removed nonetheless; the error of a
+                # failing stop() reaches the caller there and then – the handlers not yet visited stay, usable
+                k, res = op[1], "ok"
+                for hid in list(reg):
+                    reg.remove(hid)
+                    c = t["handlers"][hid]
+                    if c["enqueue"]:
+                        drain(events, hid)
+                    tasks[hid] = []
+                    if stop_runs_user_code(c) and (k, hid, "stop") in t["faults"]:
+                        res = t["faults"][(k, hid, "stop")]
+                        break
+                results.append(res)
             else:
                 _, hid, k = op
                 if hid not in reg:
@@ -378,13 +424,24 @@ def spec_run(scn):
                 if c["enqueue"]:
                     drain(events, hid)
                 tasks[hid] = []
-                results.append(t["faults"].get((k, hid, "stop"), "ok"))
+                results.append(t["faults"].get((k, hid, "stop"), "ok") if stop_runs_user_code(c) else "ok")
         minl = min([t["handlers"][h]["level"] for h in reg]) if reg else "inf"
         obs.append(show_obs(results, events, reg, minl, sinks))
     return obs
 
 
 # ----------------------------------------------------------------------------- implementation runner
+def report_phase(text):
+    """which of the four pieces of a report a write to stderr belongs to"""
+    if text.startswith("--- Logging error in Loguru Handler #"):
+        return "h"
+    if text.startswith("Record was: "):
+        return "r"
+    if text.startswith("--- End of logging error ---"):
+        return "f"
+    return "t"
+
+
 class Recorder:
     """stand-in for sys.stderr; `retired` = it is no longer sys.stderr (any write to it is a stale write),
     `closed` = like a closed file: writing raises ValueError"""
@@ -404,6 +461,13 @@ class Recorder:
         if self.mode == "ok":
             self.chunks.append((threading.current_thread().name, text))
             return len(text)
+        if "@" in self.mode:
+            # a stream that breaks in the middle of a report: it refuses the chunk named in the mode
+            kind, at = self.mode.split("@")
+            if report_phase(text) != at:
+                self.chunks.append((threading.current_thread().name, text))
+                return len(text)
+            raise ERR_CLS[kind]("stderr broke at chunk %s" % at)
         raise ERR_CLS[self.mode]("stderr is broken")
 
     def flush(self):
@@ -437,30 +501,53 @@ def _is_junk(text):
     return bool(lines)
 
 
+HEADER = re.compile(r"--- Logging error in Loguru Handler #(\d+) ---\n")
+
+
+def _rec_tag(rec):
+    if rec == "None":
+        return None, False
+    if rec.startswith("/!\\ Unprintable record"):
+        return -1, True
+    mi = re.search(r"'i': (\d+)", rec)
+    return (int(mi.group(1)) if mi else -2), False
+
+
 def parse_reports(per_thread):
+    """stderr text -> report events: complete blocks (R…) and blocks stderr accepted only in part (P…)"""
     events, junk = [], []
     for name, text in per_thread.items():
         src = "w" if name.startswith("loguru-writer-") else "m"
-        pos = 0
-        for m in BLOCK.finditer(text):
-            if _is_junk(text[pos:m.start()]):
-                junk.append(text[pos:m.start()])
-            pos = m.end()
-            hid = int(m.group(1))
-            rec = m.group(2)
-            tb = [l for l in m.group(3).split("\n") if l.strip()]
-            last = tb[-1] if tb else ""
-            mm = re.match(r"([\w.]+)", last)
-            kind = kind_of_name(mm.group(1)) if mm else "Other"
-            if rec == "None":
-                events.append(ev_report(hid, None, kind, False, src))
-            elif rec.startswith("/!\\ Unprintable record"):
-                events.append(ev_report(hid, -1, kind, True, src))
-            else:
-                mi = re.search(r"'i': (\d+)", rec)
-                events.append(ev_report(hid, int(mi.group(1)) if mi else -2, kind, False, src))
-        if _is_junk(text[pos:]):
-            junk.append(text[pos:])
+        heads = list(HEADER.finditer(text))
+        lead = text[:heads[0].start()] if heads else text
+        if _is_junk(lead):
+            junk.append(lead)
+        for n, hm in enumerate(heads):
+            seg = text[hm.start():heads[n + 1].start() if n + 1 < len(heads) else len(text)]
+            hid = int(hm.group(1))
+            m = BLOCK.match(seg)
+            if m:
+                tb = [l for l in m.group(3).split("\n") if l.strip()]
+                last = tb[-1] if tb else ""
+                mm = re.match(r"([\w.]+)", last)
+                kind = kind_of_name(mm.group(1)) if mm else "Other"
+                msg, ph = _rec_tag(m.group(2))
+                events.append(ev_report(hid, msg, kind, ph, src))
+                if _is_junk(seg[m.end():]):
+                    junk.append(seg[m.end():])
+                continue
+            rest = seg[hm.end() - hm.start():]
+            chunks, msg, ph = "h", None, False
+            rm = re.match(r"Record was: (.*?)\n", rest, re.S)
+            if rm:
+                chunks += "r"
+                msg, ph = _rec_tag(rm.group(1))
+                rest = rest[rm.end():]
+                if rest.strip():
+                    chunks += "t"
+            elif rest.strip():
+                junk.append(rest)
+            events.append(ev_partial(hid, msg, ph, chunks, src))
     return events, junk
 
 
@@ -584,9 +671,10 @@ class Impl:
                 def write(self, message):
                     me.on_write(h, message)
                     me.contents[h].append(idx_of_text(str(message), ser))
-
+            if c.get("stoppable", 1):
                 def stop(self):
                     me.fault(me.cur_k, h, "stop")
+                Stream.stop = stop
             if kind == "streamFlush":
                 def flush(self):
                     me.fault(me.last_i.get(h, -1), h, "flush")
@@ -700,6 +788,9 @@ class Impl:
                         self.log(op[1])
                     elif op[0] == "c":
                         await self.lg.complete()
+                    elif op[0] == "R":
+                        self.cur_k = op[1]
+                        self.lg.remove()
                     else:
                         self.cur_k = op[2]
                         self.lg.remove(op[1])
@@ -1081,7 +1172,7 @@ def judge_closed_loop(ctx, params):
 # ----------------------------------------------------------------------------- generators
 def base_handler(hid, **kw):
     h = {"id": hid, "level": 0, "catch": 1, "enqueue": 0, "kind": "callable", "filter": 0, "dynamic": 0,
-         "serialize": 0}
+         "serialize": 0, "stoppable": 1}
     h.update(kw)
     return h
 
@@ -1105,7 +1196,7 @@ def stage_valid(stage, c):
     if stage == "serialize":
         return bool(c["serialize"])
     if stage == "stop":
-        return c["kind"] not in ("callable", "coroutine")
+        return stop_runs_user_code(c)
     return True
 
 
@@ -1120,7 +1211,7 @@ def product_points():
                     for kind in KINDS:
                         for n in (1, 2, 3):
                             for w in range(2 ** n):
-                                if stage == "stop" and (n != 2 or w != 1):
+                                if stage == "stop" and not ((n == 2 and w == 1) or (n == 3 and w == 1)):
                                     continue
                                 pts.append((stage, pos, catch, enq, kind, n, w))
     return pts
@@ -1144,8 +1235,11 @@ def scn_of_point(pt, rng):
     groups = []
     scn = empty_scn(hs, groups)
     if stage == "stop":
-        groups += [[["l", 0], ["c"]], [["r", pos, 1]], [["l", 2], ["c"]]]
+        # n == 2: remove(<that handler>); n == 3: remove() of all – the loop ends at the failing stop()
+        groups += [[["l", 0], ["c"]], [["r", pos, 1]] if n == 2 else [["R", 1]], [["l", 2], ["c"]]]
         scn["faults"].append([1, pos, "stop", kind_err])
+        if n == 3:
+            groups += [[["R", 3]], [["l", 4], ["c"]]]
         return scn
     for i in range(n):
         groups.append([["l", i], ["c"]])
@@ -1160,6 +1254,8 @@ def scn_of_point(pt, rng):
     groups.append([["l", n], ["c"]])       # one more good message: everybody must be usable
     if bin(w).count("1") >= 2 and rng.chance(60):
         scn["stderr_seq"] = gen_stderr_seq(rng, len(groups), "ok")
+    elif w and rng.chance(20):
+        scn["stderr"] = "OSError@" + rng.choice(CHUNKS)    # stderr breaks in the middle of every report
     return scn
 
 
@@ -1173,7 +1269,11 @@ def random_scn(rng):
         stderr = "OSError"
     elif r < 13:
         stderr = rng.choice(["ValueError", "RuntimeError"])
-    tame = stderr in ("ok", "absent", "OSError")
+    elif r < 21:
+        stderr = "OSError@" + rng.choice(CHUNKS)          # the pipe breaks in the middle of a report
+    elif r < 24:
+        stderr = rng.choice(["ValueError", "RuntimeError"]) + "@" + rng.choice(CHUNKS)
+    tame = is_tame(stderr)
     hs = []
     for hid in range(nh):
         kind = rng.choice(KINDS)
@@ -1184,7 +1284,8 @@ def random_scn(rng):
                 kind = "callable"
         hs.append(base_handler(hid, level=rng.choice([0, 0, 0, 10, 20, 30]), catch=int(rng.chance(65)), enqueue=enq,
                                kind=kind, filter=int(rng.chance(40)), dynamic=int(rng.chance(30)),
-                               serialize=int(rng.chance(25))))
+                               serialize=int(rng.chance(25)),
+                               stoppable=int(not (kind in ("stream", "streamFlush") and rng.chance(30)))))
     nm = rng.range(1, 4)
     groups = [[["l", i], ["c"]] for i in range(nm)]
     scn = empty_scn(hs, groups)
@@ -1279,6 +1380,18 @@ def random_scn(rng):
                 scn["faults"].append([k, hid, "stop", rng.choice(ERR_NAMES)])
         if rng.chance(30):
             groups.insert(min(at + 1, len(groups)), [["r", hid, 51]])    # removing twice: ValueError
+    # remove() of all handlers at once, possibly twice: a stop() that raises ends the loop, the rest stay registered
+    if rng.chance(22):
+        at = rng.range(1, len(groups))
+        for k in ([52, 53] if rng.chance(35) else [52]):
+            groups.insert(min(at, len(groups)), [["R", k]])
+            at += rng.range(1, 2)
+            for c in hs:
+                if rng.chance(35) and not any(f[1] == c["id"] and f[2] == "stop" for f in scn["faults"]) \
+                        and not (c["kind"] == "file" and (any(f[1] == c["id"] and f[2] == "write" for f in scn["faults"])
+                                                          or any(r[1] == c["id"] for r in scn["reenter"]))):
+                    # the table may name sinks whose stop() runs no user code: nothing can fail there
+                    scn["faults"].append([k, c["id"], "stop", rng.choice(ERR_NAMES)])
     if tame and rng.chance(30):
         scn["stderr_seq"] = gen_stderr_seq(rng, len(groups), scn["stderr"])
     return scn
@@ -1295,8 +1408,10 @@ def gen_stderr_seq(rng, ngroups, first):
                 e = {"mode": "ok", "fresh": 1, "close_prev": int(rng.chance(50))}
             elif r < 65:
                 e = {"mode": "absent", "fresh": 1, "close_prev": int(rng.chance(50))}
-            elif r < 75:
+            elif r < 70:
                 e = {"mode": "OSError", "fresh": 1, "close_prev": int(rng.chance(50))}
+            elif r < 80:
+                e = {"mode": "OSError@" + rng.choice(CHUNKS), "fresh": 1, "close_prev": int(rng.chance(50))}
             else:
                 e = {"mode": mode, "fresh": 0, "close_prev": 0}
         mode = e["mode"]
@@ -1374,6 +1489,26 @@ CORPUS = [
     {"handlers": [base_handler(0), base_handler(1)], "faults": [[0, 0, "write", "ValueError"]], "rejects": [],
      "reenter": [], "exc": [], "strfails": [], "levels": {}, "noloop": 0, "stderr": "OSError",
      "groups": [[["l", 0], ["c"]]]},
+    # stderr breaks in the MIDDLE of a report (at the record line, the traceback, the footer, the header), for the
+    # logging thread and for the enqueue worker, with an unprintable record: never propagated, worker alive
+    {"handlers": [base_handler(0, kind="streamFlush"), base_handler(1, enqueue=1), base_handler(2)],
+     "faults": [[0, 0, "write", "ValueError"], [0, 1, "write", "KeyError"], [1, 0, "flush", "OSError"],
+                [1, 1, "get", "TypeError"], [2, 0, "formatMap", "KeyError"], [2, 1, "write", "Other"],
+                [3, 0, "write", "Other"], [3, 1, "write", "IndexError"]],
+     "rejects": [], "reenter": [], "exc": [], "strfails": [2], "levels": {}, "noloop": 0, "stderr": "OSError@r",
+     "stderr_seq": [{"mode": "OSError@r", "fresh": 0, "close_prev": 0}, {"mode": "OSError@t", "fresh": 1, "close_prev": 1},
+                    {"mode": "OSError@f", "fresh": 1, "close_prev": 0}, {"mode": "OSError@h", "fresh": 1, "close_prev": 1},
+                    {"mode": "ok", "fresh": 1, "close_prev": 1}],
+     "groups": [[["l", 0], ["c"]], [["l", 1], ["c"]], [["l", 2], ["c"]], [["l", 3], ["c"]], [["l", 4], ["c"]]]},
+    # remove() of all handlers: the stream without stop() and the callable go quietly, the logging.Handler's close()
+    # raises – it is removed nonetheless, the loop ends there, the file sink after it stays registered and usable;
+    # a second remove() finishes the job
+    {"handlers": [base_handler(0, kind="stream", stoppable=0), base_handler(1, enqueue=1),
+                  base_handler(2, kind="standard"), base_handler(3, kind="file"), base_handler(4, kind="streamFlush")],
+     "faults": [[9, 0, "stop", "ValueError"], [9, 1, "stop", "ValueError"], [9, 2, "stop", "RuntimeError"],
+                [10, 4, "stop", "OSError"]],
+     "rejects": [], "reenter": [], "exc": [], "strfails": [], "levels": {}, "noloop": 0, "stderr": "ok",
+     "groups": [[["l", 0], ["c"]], [["R", 9]], [["l", 1], ["c"]], [["R", 10]], [["l", 2], ["c"]], [["R", 11]]]},
     # DESIGN "Outside": stderr failing with ValueError reaches the caller even with catch=True (model only)
     {"handlers": [base_handler(0), base_handler(1)], "faults": [[0, 0, "write", "KeyError"]], "rejects": [],
      "reenter": [], "exc": [], "strfails": [], "levels": {}, "noloop": 0, "stderr": "ValueError",
@@ -1496,7 +1631,7 @@ def run(ctx):
             ctx.broke("model layers disagree (stepW vs stepWN)", mo[:2000])
             mo = mo.split(" /// ")[1]
         model_obs = mo.split("|") if mo is not None else None
-        if scn["stderr"] not in ("ok", "absent", "OSError") and (mo is None or "BLOCKED" in mo):
+        if not is_tame(scn["stderr"]) and (mo is None or "BLOCKED" in mo):
             continue
         status, obs = run_impl(scn)
         ctx.case(line_of(scn), nontrivial=is_nontrivial(scn))
@@ -1514,6 +1649,12 @@ def run(ctx):
             ctx.stat("reentrant_sink")
         if any(op[0] == "r" for g in scn["groups"] for op in g):
             ctx.stat("with_remove")
+        if any(op[0] == "R" for g in scn["groups"] for op in g):
+            ctx.stat("with_remove_all")
+        if any("@" in m for m in [scn["stderr"]] + [e["mode"] for e in scn.get("stderr_seq") or []]):
+            ctx.stat("stderr_breaks_mid_report")
+        if any(not h.get("stoppable", 1) for h in scn["handlers"]):
+            ctx.stat("stream_without_stop_method")
         if origin.startswith("random[") and int(origin[7:-1]) < 3:
             ctx.sample({"scenario": line_of(scn), "impl": obs})
         if judge(ctx, scn, status, obs, model_obs, origin):
